@@ -129,7 +129,7 @@ class Gen:
             choices += [("newstr", 6), ("push", 6), ("pushr", 3), ("pop", 6), ("popto", 3), ("oref", 3),
                         ("clones", 2), ("unclone", 2), ("unload", 1 if self.late else 0), ("reclaimu", 0 if self.cyclic else 3)]
         else:
-            choices += [("err", 4), ("efun", 12), ("srange", 4), ("rest", 8), ("resto", 2), ("fefun", 6), ("frest", 3), ("reclaim", 3)]
+            choices += [("err", 4), ("efun", 12), ("srange", 4), ("rest", 8), ("resto", 2), ("fefun", 6), ("frest", 3), ("reclaim", 0 if self.cyclic else 3)]
         k = r.weighted(choices)
         S = self.slots
         if k == "newarr":
@@ -515,7 +515,8 @@ class C06(Prop):
     theorems = ["NV.C06.prog_widths_agree", "NV.C06.incRef_prog_matches", "NV.C06.decRef_prog_matches", "NV.C06.no_dangling_reference",
                 "NV.C06.program_alive_while_referenced", "NV.C06.prog_ref_eq_holders", "NV.C06.unreferenced_is_deallocated",
                 "NV.C06.holders_eq_H", "NV.C06.run_DE", "NV.C06.oracle_ref_clause", "NV.C06.oracle_freed_clause", "NV.C06.oracle_leak_clause",
-                "NV.C06.oracle_string_clauses", "NV.C06.arrBytes_matches",
+                "NV.C06.oracle_string_clauses", "NV.C06.arrBytes_matches", "NV.C06.collect1_fix", "NV.C06.oracle_accepts_model_state",
+                "NV.C06.sweep_runs_every_pending_call_once",
                 "NV.C06.widths_agree", "NV.C06.ref_eq_holders", "NV.C06.no_free_while_held",
                 "NV.C06.primitives_preserve_invariant", "NV.C06.string_never_freed_while_held", "NV.C06.string_cells_never_freed_while_held",
                 "NV.C06.string_saturates", "NV.C06.no_inplace_modification_while_shared", "NV.C06.extendInPlace_sole",
@@ -565,7 +566,8 @@ class C06(Prop):
                   "instruction of 69 of them, counters back at the baseline, ASan), not proved.  The top statement "
                   "`judge (model trace) = []` is proved clause-wise only for the per-value comparisons (oracle_ref_clause, "
                   "oracle_freed_clause, oracle_leak_clause, oracle_string_clauses: on every model state the oracle's holder count equals "
-                  "the counter / is 0 for freed values); the simulation between the oracle's graph machine and the counting machine is not "
+                  "the counter / is 0 for freed values; oracle_accepts_model_state: the oracle's declarative collection step is the identity on "
+                  "every state the model reaches); the simulation between the oracle's graph machine and the counting machine is not "
                   "proved (the oracle is executed on the model's own traces and on 39 corrupted ones on every run instead).  "
                   "Trusted: Lean kernel; extract.py; the correspondence harness (differential, only the generated histories); "
                   "AddressSanitizer's poisoning as the 'has been freed' observation.")
@@ -840,6 +842,10 @@ class C06(Prop):
             "mset 3 7 0", "setvar 0 0 0", "setvar 0 1 2", "setvar 0 2 3", "setvar 3 0 6", "setvar 3 1 2", "reclaimu", "dest 1", "reclaimu",
             "dest 2", "reclaimu", "reclaimu", "cleanup", "free 0", "free 1", "free 7", "reclaimu", "dest 3", "reclaimu", "free 2", "free 3", "free 4", "free 5",
             "free 6", "cleanup", "dest 0", "cleanup", "drop 0", "drop 1", "drop 2", "drop 3"])
+        # the recursion counter of check_svalue is not decremented on overflow: after a cyclic value in an earlier variable (a
+        # slot) the handles are no longer reached - the model mirrors that
+        mk("reclaim-after-cycle-lpc", "lpc", ["fill 6 2 8", "aset 6 0 6", "newobj 0", "newobjr 1 1", "dest 0", "dest 1", "reclaim", "aset 6 0 5",
+                                              "reclaim", "free 6", "reclaim", "cleanup"])
         mk("reclaim-objects-lpc", "lpc", ["newobj 0", "newobj 1", "newobj 2", "newobjr 3 2", "newarr 0 2", "newmap 1", "setvar 1 0 0",
                                           "reclaim", "dest 0", "dest 3", "reclaim", "reclaim", "cleanup", "dest 2", "cleanup", "reclaim",
                                           "getvar 2 1 0", "dest 1", "reclaim", "cleanup", "free 0", "free 1", "free 2"])
